@@ -578,11 +578,11 @@ def run(ctx: Context):
             adds = [(n, e) for n in mcfg.nodes for e in ev(n, "add", "shares")]
             for (n, (recv, key, _v)) in adds:
                 r.site(m, n.ast, "writer registered")
-                sp = [p for p in first_positional_params(m) if "secret" in p]
+                stored_writer = _v.id if isinstance(_v, ast.Name) else None
 
-                def sec_added(x, _recv=recv, _key=key):
+                def sec_added(x, _recv=recv, _key=key, _w=stored_writer):
                     return any(rc == _recv and k == _key and isinstance(v, ast.Name) and v.id in first_positional_params(m)
-                               and "secret" in v.id for (rc, k, v) in ev(x, "add", "upload_secrets"))
+                               and v.id != _w and v.id != _key for (rc, k, v) in ev(x, "add", "upload_secrets"))
                 bad = find_path_from_to_avoiding(mcfg, lambda x, _n=n: x is _n, sec_added)
                 bad2 = find_path_avoiding(mcfg, lambda x, _n=n: x is _n, gate_node=sec_added)
                 if bad and bad2:
@@ -649,8 +649,6 @@ def run(ctx: Context):
                             and c.func.value.id not in (hp[0], "self"):
                         # writer-changing call: receiver must be the validated writer
                         rf = mn.norm(n, c.func.value)
-                        if c.func.value.id == "f":
-                            continue
                         found += 1
                         r.require(rf == want, m, m.loc(c), "%s.%s() in %s acts on %s, not on the writer from "
                                   "get_write_bucket(%s, %s, %s[Secrets.UPLOAD])" % (
@@ -723,7 +721,9 @@ def run(ctx: Context):
                             # BadWriteEnablerError handler -> 401
                             mcfg = m.cfg()
                             hs_ = [h for (h, lab) in mcfg.successors(n) if lab == "exc" and h.kind == "except"
-                                   and "BadWriteEnablerError" in src(m, h.ast.type)]
+                                   and h.ast.type is not None and "BadWriteEnablerError" in {
+                                       x.id if isinstance(x, ast.Name) else x.attr for x in ast.walk(h.ast.type)
+                                       if isinstance(x, (ast.Name, ast.Attribute))}]
                             if r.require(bool(hs_), m, m.loc(c), "a wrong write enabler is not translated to a 401 response"):
                                 for h in hs_:
                                     for (nx, _l) in mcfg.successors(h):
